@@ -68,6 +68,63 @@ fn show_final(r: Result<ArgMatches, clap::Error>) -> String {
     }
 }
 
+fn panic_msg(p: Box<dyn std::any::Any + Send>) -> String {
+    let m = p.downcast_ref::<String>().cloned().or_else(|| p.downcast_ref::<&str>().map(|s| s.to_string())).unwrap_or_default();
+    m.replace(['\n', '\t', '(', ')'], " ")
+}
+
+/// one by-reference call under `catch_unwind`: a panic is the observation `PANIC`
+fn guarded<F: FnOnce() -> String>(f: F) -> String {
+    match catch_unwind(AssertUnwindSafe(f)) {
+        Ok(s) => s,
+        Err(_) => "PANIC".to_string(),
+    }
+}
+
+fn apply_op(cur: &mut Command, op: &Sx, root_built: bool) -> String {
+    match op.head() {
+        "parse" => {
+            let av: Vec<OsString> = op.args().iter().map(os).collect();
+            show_result(cur.try_get_matches_from_mut(av))
+        }
+        "build" => {
+            cur.build();
+            "unit".to_string()
+        }
+        "help" => format!("r {}", hex(cur.render_help().to_string().as_bytes())),
+        "longhelp" => format!("r {}", hex(cur.render_long_help().to_string().as_bytes())),
+        "usage" => format!("r {}", hex(cur.render_usage().to_string().as_bytes())),
+        "clone" => {
+            *cur = cur.clone();
+            "unit".to_string()
+        }
+        // what `did_you_mean_flag` does to the level that rejected an unknown long flag:
+        // `_build_self(false)` on each of its subcommands (reached here through the public
+        // `render_usage`); only levels the parser has been to (root built / bin name set)
+        "sugg" => {
+            let mut node = Some(cur);
+            let mut ok = root_built;
+            for n in op.args() {
+                if !ok {
+                    break;
+                }
+                let name = String::from_utf8(n.bytes()).unwrap();
+                node = node.and_then(|c| c.get_subcommands_mut().find(|s| s.get_name() == name));
+                ok = node.as_ref().map(|c| c.get_bin_name().is_some()).unwrap_or(false);
+            }
+            if ok {
+                if let Some(c) = node {
+                    for s in c.get_subcommands_mut() {
+                        let _ = s.render_usage();
+                    }
+                }
+            }
+            "unit".to_string()
+        }
+        x => panic!("hist op {x}"),
+    }
+}
+
 fn hist(a: &[Sx]) -> String {
     let mut env = EnvGuard(vec![]);
     let spec = a[0].args();
@@ -78,7 +135,7 @@ fn hist(a: &[Sx]) -> String {
         c
     })) {
         Ok(c) => c,
-        Err(_) => return "INVALID".into(),
+        Err(p) => return format!("INVALID {}", panic_msg(p)),
     };
     let argv: Vec<OsString> = a[2].args().iter().map(os).collect();
 
@@ -86,68 +143,44 @@ fn hist(a: &[Sx]) -> String {
     let mut out = String::from("steps");
     // the root is built by every by-reference call
     let mut root_built = false;
+    let mut history_panicked = false;
     for op in a[1].args() {
         if !matches!(op.head(), "clone" | "sugg") {
             root_built = true;
         }
-        let obs = match op.head() {
-            "parse" => {
-                let av: Vec<OsString> = op.args().iter().map(os).collect();
-                show_result(cur.try_get_matches_from_mut(av))
-            }
-            "build" => {
-                cur.build();
-                "unit".to_string()
-            }
-            "help" => format!("r {}", hex(cur.render_help().to_string().as_bytes())),
-            "longhelp" => format!("r {}", hex(cur.render_long_help().to_string().as_bytes())),
-            "usage" => format!("r {}", hex(cur.render_usage().to_string().as_bytes())),
-            "clone" => {
-                cur = cur.clone();
-                "unit".to_string()
-            }
-            // what `did_you_mean_flag` does to the level that rejected an unknown long flag:
-            // `_build_self(false)` on each of its subcommands (reached here through the public
-            // `render_usage`); only levels the parser has been to (root built / bin name set)
-            "sugg" => {
-                let mut node = Some(&mut cur);
-                let mut ok = root_built;
-                for n in op.args() {
-                    if !ok {
-                        break;
-                    }
-                    let name = String::from_utf8(n.bytes()).unwrap();
-                    node = node.and_then(|c| c.get_subcommands_mut().find(|s| s.get_name() == name));
-                    ok = node.as_ref().map(|c| c.get_bin_name().is_some()).unwrap_or(false);
-                }
-                if ok {
-                    if let Some(c) = node {
-                        for s in c.get_subcommands_mut() {
-                            let _ = s.render_usage();
-                        }
-                    }
-                }
-                "unit".to_string()
-            }
-            x => panic!("hist op {x}"),
-        };
+        let obs = guarded(|| apply_op(&mut cur, op, root_built));
+        if obs == "PANIC" {
+            // the same call on a fresh definition: does it panic there too?
+            let mut f = fresh.clone();
+            let fresh_obs = guarded(|| apply_op(&mut f, op, false));
+            let fresh_kind = if fresh_obs == "PANIC" { "PANIC" } else { "fine" };
+            out.push_str(&format!(" ({} (PANIC {}) (n x - - ()))", op.head(), fresh_kind));
+            history_panicked = true;
+            break;
+        }
         out.push_str(&format!(" ({} ({}) {})", op.head(), obs, show_state(&cur)));
     }
-    let reused = show_final(cur.try_get_matches_from_mut(argv.clone()));
+    if history_panicked {
+        // the state after a panic is unspecified: no final parse on it
+        cur = fresh.clone();
+    }
+    let reused = guarded(|| show_final(cur.try_get_matches_from_mut(argv.clone())));
     let end_state = show_state(&cur);
     let mut f = fresh.clone();
-    let fresh_r = show_final(f.try_get_matches_from_mut(argv.clone()));
+    let fresh_r = guarded(|| show_final(f.try_get_matches_from_mut(argv.clone())));
     let fresh_state = show_state(&f);
     // a definition built again from the spec (not a clone of anything)
     let mut f2 = build_cmd(spec, &mut env);
-    let fresh2_r = show_final(f2.try_get_matches_from_mut(argv.clone()));
+    let fresh2_r = guarded(|| show_final(f2.try_get_matches_from_mut(argv.clone())));
     let mut cl = fresh.clone().clone();
-    let cloned_r = show_final(cl.try_get_matches_from_mut(argv.clone()));
+    let cloned_r = guarded(|| show_final(cl.try_get_matches_from_mut(argv.clone())));
     let mut b = fresh.clone();
-    b.build();
-    let built_r = show_final(b.try_get_matches_from_mut(argv.clone()));
+    let built_r = guarded(|| {
+        b.build();
+        show_final(b.try_get_matches_from_mut(argv.clone()))
+    });
     // by-value entry point on a fresh definition
-    let byval_r = show_final(fresh.clone().try_get_matches_from(argv));
+    let byval_r = guarded(|| show_final(fresh.clone().try_get_matches_from(argv)));
     format!(
         "{out} final (reused {reused}) (fresh {fresh_r}) (fresh2 {fresh2_r}) (cloned {cloned_r}) (built {built_r}) (byval {byval_r}) (end {end_state}) (freshend {fresh_state})"
     )
@@ -169,11 +202,15 @@ fn build2(a: &[Sx]) -> String {
     };
     c.build();
     let s1 = show_state(&c);
-    let h1 = hex(c.render_long_help().to_string().as_bytes());
-    c.build();
-    let s2 = show_state(&c);
-    let h2 = hex(c.render_long_help().to_string().as_bytes());
-    format!("(first {s1} {h1}) (second {s2} {h2})")
+    let h1 = guarded(|| hex(c.clone().render_long_help().to_string().as_bytes()));
+    // the second call under its own guard: a panic here is a panic of the re-entered build only
+    let second = guarded(|| {
+        c.build();
+        let s2 = show_state(&c);
+        let h2 = hex(c.clone().render_long_help().to_string().as_bytes());
+        format!("{s2} {h2}")
+    });
+    format!("(first {s1} {h1}) (second {second})")
 }
 
 /// Returns `Some(result)` when `head` is a mode of this area.
